@@ -717,6 +717,21 @@ def gen_long_text(rng, extra):
     return t if rng.chance(0.6) else t[:-1]
 
 
+def gen_long_pair(rng, extra):
+    """(shorter, longer): a text of more than `extra` characters ending in a new-line, and a strict LINE EXTENSION of it
+    (the same text followed by further lines) - or, one time in four, a same-length text differing in one character"""
+    lines = []
+    while sum(len(l) for l in lines) < extra + rng.randint(2, 60):
+        lines.append(''.join(rng.choice('abc ') for _ in range(rng.randint(0, 30))) + '\n')
+    base = ''.join(lines)
+    if rng.chance(0.25):
+        k = rng.below(len(base))
+        if base[k] != '\n':
+            return base, base[:k] + ('b' if base[k] != 'b' else 'a') + base[k + 1:]
+    more = ''.join(''.join(rng.choice('abc ') for _ in range(rng.randint(0, 12))) + '\n' for _ in range(rng.randint(1, 3)))
+    return base, base + (more if rng.chance(0.7) else more[:-1] or 'c')
+
+
 def decorrelated(ctx):
     """common.Rng streams of consecutive seeds are shifts of one another (state = seed * gamma + c, step = gamma);
     draw one value from ctx.rng and start a stream at an unrelated 64-bit state, so that VERIF_SEED=1 and 2 give
@@ -830,7 +845,17 @@ def run(ctx, res):
                 trans = gen_trans(rng) if rng.chance(0.6) else None
                 buff = gen_buff(rng, text)
                 m = gen_matcher(rng, rng.randint(0, 2), text, exotic)
-                if rng.chance(0.12):
+                if rng.chance(0.08):  # a long model text compared with a prefix / line extension of it from any kind of source
+                    a_, b_ = gen_long_pair(rng, extra)
+                    text, other = (a_, b_) if rng.chance(0.5) else (b_, a_)
+                    kind, exotic = rng.choice(BASE_KINDS), False
+                    trans = rng.choice([None, ('atom', ('id',)), ('atom', ('filter', ('true',)))])
+                    buff = rng.choice([16, 100, 8192])
+                    m = ('equals', rng.choice(BASE_KINDS), other, None)
+                    if rng.chance(0.3):
+                        m = ('neg', m)
+                    res.count('verdict cases: long prefix / line-extension pair')
+                elif rng.chance(0.12):
                     kind, text = gen_progx(rng, exotic, allow_nd=False)
                     buff = gen_buff(rng, whole_text(kind, text))
                     m = gen_matcher(rng, rng.randint(0, 2), whole_text(kind, text), exotic)
@@ -854,6 +879,13 @@ def run(ctx, res):
                 trans = rng.choice([None, None, None, ('atom', ('id',)), ('atom', ('filter', ('true',))), ('seq', [('id',), ('filter', ('ge', 1))]),
                                     ('atom', ('replace', 'bnl', False))])
                 buff = gen_buff(rng, ta)
+                if rng.chance(0.25):  # long prefix / line-extension pairs, both directions (the head-reading strategies of equals)
+                    te, ta = gen_long_pair(rng, extra)
+                    if rng.chance(0.5):
+                        te, ta = ta, te
+                    trans = rng.choice([None, None, ('atom', ('id',)), ('atom', ('filter', ('true',)))])
+                    buff = rng.choice([16, 100, 8192])
+                    res.count('kind cases: long prefix / line-extension pair')
             observed = observe_kinds(world, te, ta, trans, buff, variant, sin)
             res.count('kind cases: program kind %s%s' % (variant, ' with -stdin' if sin else ''))
             res.count('kind cases: ' + ('same text' if te == ta else 'different texts'))
